@@ -5,7 +5,8 @@
 //!   c14 join <base> <item>          `LocalDestination::path` = `Path::join`, lexically resolved; `in` / `out` of base
 //!   c14 hostile <kind> <name-hex>   snapshot whose tree holds a file node with a hostile name (crafted through a
 //!        `ReadSource` whose node name differs from its path); restore into dest with sentinels around it.
-//!        observation: `refused` (restore returns an error and nothing is written) or `restored`.
+//!        observation: `refused` (restore returns an error and nothing is written) or `restored`.  Kind `nested`: the name is
+//!        given to a file node inside a plain directory `sub` (path `sub/<name>`: the `..` is not the first component).
 //!   c14 tree <seed>                 random tree × random mutation of the destination × options; oracle only.
 //!   c14 walk <delete> <dry> <dst> <nodes>   the merge-walk of `collect_and_prepare`: dst = `K:path,…` (d dir, f file with
 //!        other content, F file with the snapshot's content, l dangling symlink), nodes = `K:path,…` (d dir, f file, s symlink),
@@ -103,6 +104,8 @@ struct HostileSource {
     name: Vec<u8>,
     content: Vec<u8>,
     as_dir: bool,
+    /// the hostile name is given to a file node INSIDE a plain directory `sub` (so it is not the first component of the path)
+    nested: bool,
 }
 
 fn meta(size: u64) -> Metadata {
@@ -135,7 +138,13 @@ impl ReadSource for HostileSource {
         root.meta.mode = Some(0o755);
         v.push(Ok(ReadSourceEntry { path: PathBuf::from(SRC_ROOT), node: root, open: None }));
         let name = OsString::from_vec(self.name.clone());
-        if self.as_dir {
+        if self.nested {
+            let mut d = Node::new_node(std::ffi::OsStr::new("sub"), NodeType::Dir, meta(0));
+            d.meta.mode = Some(0o755);
+            v.push(Ok(ReadSourceEntry { path: PathBuf::from(SRC_ROOT).join("sub"), node: d, open: None }));
+            let f = Node::new_node(&name, NodeType::File, meta(self.content.len() as u64));
+            v.push(Ok(ReadSourceEntry { path: PathBuf::from(SRC_ROOT).join("sub").join("x"), node: f, open: Some(Cursor::new(self.content.clone())) }));
+        } else if self.as_dir {
             let mut d = Node::new_node(&name, NodeType::Dir, meta(0));
             d.meta.mode = Some(0o755);
             v.push(Ok(ReadSourceEntry { path: PathBuf::from(SRC_ROOT).join("x"), node: d, open: None }));
@@ -189,7 +198,7 @@ fn hostile(kind: &str, name: &[u8]) -> String {
     } else {
         name.to_vec()
     };
-    let src = HostileSource { name, content: b"EVIL".to_vec(), as_dir: kind == "dir" };
+    let src = HostileSource { name, content: b"EVIL".to_vec(), as_dir: kind == "dir", nested: kind == "nested" };
     let Ok((h, _)) = RepoHandle::init(MemBackend::new(), None, &ConfigOptions::default()) else { return "err:init".into() };
     let Ok(repo) = h.open().and_then(Repository::to_indexed_ids) else { return "err:open".into() };
     let Ok(snap) = repo.archive(&BackupOptions::default(), &src, SnapshotFile::default(), &[PathBuf::from(SRC_ROOT)]) else {
@@ -214,7 +223,8 @@ fn hostile(kind: &str, name: &[u8]) -> String {
     }
     match res {
         Err(_) => {
-            if after.keys().any(|k| inside(k) && k != "mid/dest/") {
+            // `nested`: the plain directory `sub` precedes the hostile node in the stream and may exist already (inside the destination)
+            if after.keys().any(|k| inside(k) && k != "mid/dest/" && !(kind == "nested" && k == "mid/dest/sub/")) {
                 "refused-after-writing".into()
             } else {
                 "refused".into()
@@ -476,10 +486,58 @@ fn walk_case(delete: bool, dry: bool, dst: &str, nodes: &str) -> String {
         .collect();
     lst.sort();
     let lst = if lst.is_empty() { "-".to_string() } else { lst.into_iter().map(|x| x.1).collect::<Vec<_>>().join(",") };
-    format!(
+    let obs = format!(
         "ok {},{},{},{},{}/{},{},{} {lst}",
         st.files.restore, st.files.unchanged, st.files.verified, st.files.modify, st.files.additional, st.dirs.restore, st.dirs.modify, st.dirs.additional
-    )
+    );
+    // Direct oracles.  (1) A destination entry that IS a snapshot path of the same type (directory / regular file) is not an
+    // "additional" entry: `prepare_restore` must never remove it, with or without `--delete`.
+    let kind_now = |p: &str| -> Option<char> {
+        let m = std::fs::symlink_metadata(dest.join(p)).ok()?;
+        Some(if m.is_dir() { 'd' } else if m.is_file() { 'f' } else { 'l' })
+    };
+    let same_type = |dk: char, nk: char| (dk == 'd' && nk == 'd') || ((dk == 'f' || dk == 'F') && nk == 'f');
+    for (nk, p) in &ns {
+        if let Some((dk, _)) = ds.iter().find(|(_, q)| q == p) {
+            if same_type(*dk, *nk) && kind_now(p) != Some(*nk) {
+                return "oracle-fail:prepare-restore-removed-a-snapshot-path".into();
+            }
+        }
+    }
+    // (2) The full restore: afterwards every snapshot path holds exactly the snapshot's content.  Run when the restore is
+    // expected to succeed: not a dry run, and either `--delete` (entries of another type are replaced) or no destination
+    // entry of another type than the node at its path (without `--delete` those stay and the outcome is not a plain restore).
+    let clean = ds.iter().all(|(dk, q)| ns.iter().find(|(_, p)| p == q).is_none_or(|(nk, _)| same_type(*dk, *nk)));
+    if !dry && (delete || clean) {
+        let Ok(ls) = repo.ls(&node, &LsOptions::default()) else { return "err:ls".into() };
+        if repo.restore(plan, &opts_of(true, false, delete), ls, &d).is_err() {
+            return "oracle-fail:restore-fails-after-prepare".into();
+        }
+        for (nk, p) in &ns {
+            let ok = match nk {
+                'd' => kind_now(p) == Some('d'),
+                'f' => kind_now(p) == Some('f') && std::fs::read(dest.join(p)).ok() == Some(w_content(p)),
+                _ => kind_now(p) == Some('l') && std::fs::read_link(dest.join(p)).ok() == Some(PathBuf::from("elsewhere")),
+            };
+            if !ok {
+                return format!("oracle-fail:snapshot-path-wrong-after-restore:{}{}", nk, if delete { ":delete" } else { "" });
+            }
+        }
+        // extra entries (no node at their path, not below a removed / replaced entry) survive without `--delete` and are gone with it
+        for (_, q) in &ds {
+            let is_node = ns.iter().any(|(_, p)| p == q);
+            let below_node_nondir = ns.iter().any(|(nk, p)| *nk != 'd' && q.starts_with(&format!("{p}/")));
+            if !is_node && !below_node_nondir {
+                if delete && kind_now(q).is_some() {
+                    return "oracle-fail:extra-entry-survives-delete".into();
+                }
+                if !delete && kind_now(q).is_none() {
+                    return "oracle-fail:extra-entry-removed-without-delete".into();
+                }
+            }
+        }
+    }
+    obs
 }
 
 /// Destination entries of another type than the snapshot's, full restore.
@@ -646,7 +704,8 @@ pub fn exec(t: &[&str]) -> String {
         }
         ["hostile", kind, name] => {
             let Some(n) = unhex(name) else { return "bad-op".into() };
-            if !["file", "dir", "abs"].contains(kind) || n.is_empty() || n.contains(&0) {
+            // `nested` names must be relative (an absolute one would be written to, outside the sandbox, if it were accepted)
+            if !["file", "dir", "abs", "nested"].contains(kind) || n.is_empty() || n.contains(&0) || (*kind == "nested" && n[0] == b'/') {
                 return "bad-op".into();
             }
             hostile(kind, &n)
@@ -889,7 +948,9 @@ pub fn generate(thorough: bool, rng: &mut Rng, ops: &mut Vec<String>, stats: &mu
             ops.push(format!("c14 join {} {}", hex(base), hex(it)));
         }
     }
-    for (kind, name) in [("file", &b"../evil"[..]), ("file", b".."), ("file", b"../../outer_evil"), ("dir", b".."), ("dir", b"../up"), ("abs", b"evil_abs"), ("file", b"a/b"), ("file", b"plain"), ("file", b"."), ("dir", b"plain_dir")] {
+    for (kind, name) in [("file", &b"../evil"[..]), ("file", b".."), ("file", b"../../outer_evil"), ("dir", b".."), ("dir", b"../up"), ("abs", b"evil_abs"), ("file", b"a/b"), ("file", b"plain"), ("file", b"."), ("dir", b"plain_dir"),
+        // `..` that is not the first component of the path and climbs above its depth / stays inside / plain
+        ("nested", b"../../escaped"), ("nested", b"../../../escaped3"), ("nested", b"../inside"), ("nested", b"a/../../../x"), ("nested", b"plain"), ("nested", b"..")] {
         stats.hit(format!("hostile.{kind}"));
         ops.push(format!("c14 hostile {kind} {}", hex(name)));
     }
